@@ -41,6 +41,11 @@ func init() {
 }
 
 func (r *relayInst) openAt(topic, bid string, exp int64, scopes []string) (*websocket.Conn, int64, bool) {
+	return r.openAtLate(topic, bid, exp, scopes, 0)
+}
+
+// openAtLate: the code is minted now; the websocket is dialled at dialAtNs (0: at once) — e.g. in the very second the token expires
+func (r *relayInst) openAtLate(topic, bid string, exp int64, scopes []string, dialAtNs int64) (*websocket.Conn, int64, bool) {
 	sc := []string{}
 	for _, s := range scopes {
 		sc = append(sc, enhex(s))
@@ -57,6 +62,11 @@ func (r *relayInst) openAt(topic, bid string, exp int64, scopes []string) (*webs
 		return nil, 0, false
 	}
 	code := strings.TrimRight(string(body)[i+6:], "\"}\n ")
+	if dialAtNs > 0 {
+		if d := time.Duration(dialAtNs - time.Now().UnixNano()); d > 0 {
+			time.Sleep(d)
+		}
+	}
 	admit := time.Now().UnixNano()
 	c, _, err := websocket.DefaultDialer.Dial("ws://127.0.0.1:"+strconv.Itoa(r.wsPort)+"/session/"+topic+"?code="+code, nil)
 	if err != nil {
@@ -100,7 +110,11 @@ func expiryOp(r *relayInst, fs []string) string {
 					time.Sleep(time.Duration(d) * time.Millisecond / 2)
 				}
 				exp := time.Now().Unix() + life
-				c, admit, ok := r.openAt(topic, "be"+strconv.Itoa(i), exp, []string{"read", "write"})
+				dialAt := int64(0)
+				if beh == "late" {
+					dialAt = exp*1e9 + 150e6 // dialled inside the second that begins at the expiry: exp - now == 0
+				}
+				c, admit, ok := r.openAtLate(topic, "be"+strconv.Itoa(i), exp, []string{"read", "write"}, dialAt)
 				if !ok {
 					out[i] = "refused"
 					return
